@@ -29,6 +29,7 @@ import (
 func init() {
 	execs["c04.spec"] = execC04Spec
 	execs["c04.extmsg"] = execC04ExtMsg
+	execs["c04.cur"] = execC04Cur
 	gens["C04"] = genC04
 }
 
@@ -76,6 +77,29 @@ func execC04Spec(in sx.V) sx.V {
 	if err := ct.d.Fill(in.List[3], pv.Elem()); err != nil {
 		return sx.L(sx.A("harness-error"), sx.A("fill"), sx.Str(err.Error()))
 	}
+	c := boc.NewCell()
+	if err := tlb.Marshal(c, pv.Elem().Interface()); err != nil {
+		return sx.A("err")
+	}
+	return sx.L(tlbdesc.CellSx(c), sx.B(true), sx.B(true))
+}
+
+// c04.cur ('Schema go-type descriptor value k): c04.spec after the read cursors
+// of the bit strings / cells inside the Go value were advanced by k
+func execC04Cur(in sx.V) sx.V {
+	c04Load()
+	if in.K != sx.KL || len(in.List) != 5 || in.List[1].K != sx.KBytes {
+		return sx.L(sx.A("harness-error"), sx.A("shape"))
+	}
+	ct := c03Types[string(in.List[1].Bytes)]
+	if ct == nil || ct.class != tlbdesc.ClassDescribed || ct.dsx != in.List[2].String() {
+		return sx.L(sx.A("harness-error"), sx.A("descriptor-changed"))
+	}
+	pv := reflect.New(ct.t)
+	if err := ct.d.Fill(in.List[3], pv.Elem()); err != nil {
+		return sx.L(sx.A("harness-error"), sx.A("fill"), sx.Str(err.Error()))
+	}
+	tlbdesc.AdvanceCursors(pv.Elem(), in.List[4].I())
 	c := boc.NewCell()
 	if err := tlb.Marshal(c, pv.Elem().Interface()); err != nil {
 		return sx.A("err")
@@ -159,6 +183,32 @@ func genC04(c *Ctx) {
 		}
 		for i := 0; i < n; i++ {
 			c04Spec(c, "core", p[0], ct, c03RandValue(ct, c.R))
+		}
+	}
+	// 2b. the same structures after the read cursors of their bit strings / cells were
+	//     advanced (decoded, inspected, re-encoded): the cell must still be the schema's
+	for _, p := range c04Core {
+		ct := c03Types[p[1]]
+		if ct == nil || ct.class != tlbdesc.ClassDescribed || !c03HasCursor(ct.d) {
+			continue
+		}
+		n := c.Scale(25, 400)
+		if p[0] == "MsgAddress" || p[0] == "CommonMsgInfo" || p[0] == "Message" {
+			n = c.Scale(120, 1500)
+		}
+		for i := 0; i < n; i++ {
+			pv := reflect.New(ct.t)
+			v := ct.d.Rand(c.R, pv.Elem(), 0)
+			adv := []int{1, 3, 8, 9, 64, 511}[c.R.Intn(6)]
+			if tlbdesc.AdvanceCursors(pv.Elem(), adv) == 0 {
+				continue
+			}
+			in := sx.L(sx.A(p[0]), sx.Str(ct.name), ct.d.Sx(), v, sx.Nat(adv))
+			out := c.Emit("c04.cur", in, c03Class("cursor|"+p[0], ct, v))
+			fresh := safeExec("c04.spec", sx.L(sx.A(p[0]), sx.Str(ct.name), ct.d.Sx(), v))
+			if out.String() != fresh.String() {
+				c.Fail("c04.cur", in, "cursor-"+ct.name, "the cell tlb.Marshal produces for "+ct.name+" depends on a read cursor inside the value")
+			}
 		}
 	}
 	// 3. the external-message envelope of ton.CreateExternalMessage
